@@ -8,7 +8,8 @@ EXTENDS Dag
 
 CONSTANTS MCN,      \* number of nodes of the universe
           MCW,      \* largest weight
-          MCLoops   \* BOOLEAN: self-loops <<a, a>> belong to the universe
+          MCLoops,  \* BOOLEAN: self-loops <<a, a>> belong to the universe
+          MCUpper   \* BOOLEAN: only edges <<a, b>> with a < b (every DAG up to renaming)
 
 VARIABLES mcE, mcW
 mcvars == <<mcE, mcW>>
@@ -24,6 +25,7 @@ AddEdge(a, b) ==
     /\ mcW = Ones
     /\ <<a, b>> \notin mcE
     /\ (a = b) => MCLoops
+    /\ MCUpper => a < b
     /\ mcE' = mcE \cup {<<a, b>>}
     /\ UNCHANGED mcW
 DelEdge(a, b) ==
